@@ -43,6 +43,7 @@ package webdoc
 //@   fresh_assigns webdoc.Text.*, webdoc.BaseElement.*, webdoc.Table.*, webdoc.ElementAction.*, maps, elems(string), elems(ref), cell(Ref), cell(Slice)
 //@   ensures #rows-kept rowKept(db.document.Elements, old(db.document.Elements)) && rowKept(db.textBuilder.textNodes, old(db.textBuilder.textNodes)) && rowKept(db.actionStack, old(db.actionStack)) && db.document == old(db.document) && db.textBuilder == old(db.textBuilder)
 //@   ensures [C02] #pending-text-precedes-element db.textBuilder.firstNode == len(db.textBuilder.textNodes)
+//@   ensures [C03] #action-stack-untouched db.actionStack == old(db.actionStack)
 //@   requires wfBuilder(db)
 //@   ensures wfBuilder(db)
 //@   ensures [C02] #text-then-table len(db.document.Elements) >= old(len(db.document.Elements)) + 1 &&
@@ -58,6 +59,7 @@ package webdoc
 //@   fresh_assigns webdoc.Text.*, webdoc.BaseElement.*, webdoc.Table.*, webdoc.ElementAction.*, maps, elems(string), elems(ref), cell(Ref), cell(Slice)
 //@   ensures #rows-kept rowKept(db.document.Elements, old(db.document.Elements)) && rowKept(db.textBuilder.textNodes, old(db.textBuilder.textNodes)) && rowKept(db.actionStack, old(db.actionStack)) && db.document == old(db.document) && db.textBuilder == old(db.textBuilder)
 //@   ensures [C02,C07] #only-text-appended onlyTextAppended(db)
+//@   ensures [C03] #action-stack-untouched db.actionStack == old(db.actionStack)
 //@   requires wfBuilder(db)
 //@   ensures wfBuilder(db) && db.flush
 
@@ -90,6 +92,7 @@ package webdoc
 //@   ensures #rows-kept rowKept(db.document.Elements, old(db.document.Elements)) && rowKept(db.textBuilder.textNodes, old(db.textBuilder.textNodes)) && rowKept(db.actionStack, old(db.actionStack)) && db.document == old(db.document) && db.textBuilder == old(db.textBuilder)
 //@   ensures [C02,C07] #only-text-appended onlyTextAppended(db)
 //@   ensures [C03] #text-clears-flush-request !db.flush
+//@   ensures [C03] #action-stack-untouched db.actionStack == old(db.actionStack)
 //@   requires wfBuilder(db) && canAdd(db.textBuilder.textNodes, textNode) && inTreeOf(db.textBuilder, textNode)
 //@   ensures wfBuilder(db)
 //@   ensures [C03] #flush-only-if-pending implies(!old(db.flush), len(db.document.Elements) == old(len(db.document.Elements)))
@@ -101,6 +104,7 @@ package webdoc
 //@   ensures #rows-kept rowKept(db.document.Elements, old(db.document.Elements)) && rowKept(db.textBuilder.textNodes, old(db.textBuilder.textNodes)) && rowKept(db.actionStack, old(db.actionStack)) && db.document == old(db.document) && db.textBuilder == old(db.textBuilder)
 //@   ensures [C02,C07] #only-text-appended onlyTextAppended(db)
 //@   ensures [C03] #linebreak-never-requests-flush !db.flush
+//@   ensures [C03] #action-stack-untouched db.actionStack == old(db.actionStack)
 //@   requires wfBuilder(db) && canAdd(db.textBuilder.textNodes, br) && inTreeOf(db.textBuilder, br)
 //@   ensures wfBuilder(db)
 //@   ensures [C03] #flush-only-if-pending implies(!old(db.flush), len(db.document.Elements) == old(len(db.document.Elements)))
@@ -112,6 +116,7 @@ package webdoc
 //@   ensures #rows-kept rowKept(db.document.Elements, old(db.document.Elements)) && rowKept(db.textBuilder.textNodes, old(db.textBuilder.textNodes)) && rowKept(db.actionStack, old(db.actionStack)) && db.document == old(db.document) && db.textBuilder == old(db.textBuilder)
 //@   ensures [C02,C07] #text-then-tag textThenOne(db, tag)
 //@   ensures [C02] #pending-text-precedes-element db.textBuilder.firstNode == len(db.textBuilder.textNodes)
+//@   ensures [C03] #action-stack-untouched db.actionStack == old(db.actionStack)
 //@   requires wfBuilder(db) && tag != nil
 //@   ensures wfBuilder(db)
 //@   ensures [C07] #tag-appended len(db.document.Elements) >= 1 && db.document.Elements[len(db.document.Elements)-1] == tag
@@ -123,6 +128,7 @@ package webdoc
 //@   ensures #rows-kept rowKept(db.document.Elements, old(db.document.Elements)) && rowKept(db.textBuilder.textNodes, old(db.textBuilder.textNodes)) && rowKept(db.actionStack, old(db.actionStack)) && db.document == old(db.document) && db.textBuilder == old(db.textBuilder)
 //@   ensures [C02] #text-then-embed textThenOne(db, embed)
 //@   ensures [C02] #pending-text-precedes-element db.textBuilder.firstNode == len(db.textBuilder.textNodes)
+//@   ensures [C03] #action-stack-untouched db.actionStack == old(db.actionStack)
 //@   requires wfBuilder(db) && embed != nil
 //@   ensures wfBuilder(db)
 //@   ensures len(db.document.Elements) >= 1 && db.document.Elements[len(db.document.Elements)-1] == embed
